@@ -63,4 +63,15 @@ SCENARIOS = {
     "G2": Scenario("G2", "dfg", [Q, B], ops=("Noop",), containers=("cfg", "nested"), max_depth=4, extra={"max_blocks": 2}),
     # L2 - loops with a linear rest value and nesting
     "L2": Scenario("L2", "dfg", [Q, B], ops=("Noop", "Not"), containers=("loop", "nested"), max_depth=3),
+    # R* - stand-alone roots other than Dfg / Module
+    "RG": Scenario("RG", "cfg", [B], ops=("Not",), loads=("TRUE",), containers=(), max_depth=3, extra={"max_blocks": 3}),
+    "RC": Scenario("RC", "cond", [Q], ops=("Noop",), loads=("TRUE", "U3"), containers=(), max_depth=2, extra={"sum_rows": [[], [B], [B, B]]}),
+    "RL": Scenario("RL", "loop", [Q], ops=("Noop", "Not"), loads=("TRUE",), containers=(), max_depth=2, extra={"ji": [B]}),
+    "RF": Scenario("RF", "func", [B, Q], ops=("Not", "Noop"), loads=("TRUE",), containers=("nested",), max_depth=3, orders=True),
+    # M4b - order edges only (to Output and to siblings, in either order) with metadata
+    "M4b": Scenario("M4b", "module", [], ops=("Not",), loads=(), containers=(), max_depth=2, orders=True,
+                    funcs=(("main", [B], None),), extra={"metadata": True}),
+    # M6 - a function declared with an empty output row
+    "M6": Scenario("M6", "module", [], ops=("Not",), loads=(), containers=(), max_depth=2,
+                   funcs=(("nothing", [B], []), ("main", [B], None)), extra={"fn_ops": ("call",)}),
 }
